@@ -241,7 +241,7 @@ fn connack_cases(rep: &mut Rep, idx: &mut u64) {
         }
         sets.push(v);
     }
-    let nrand = if rep.quick() { 400 } else { 20000 };
+    let nrand = if rep.quick() { 400 } else { 150000 };
     for _ in 0..nrand {
         let mut v = Vec::new();
         for t in &typical {
@@ -680,7 +680,7 @@ fn publish_cases(rep: &mut Rep, idx: &mut u64) {
         }
         sets.push(v);
     }
-    let nrand = if rep.quick() { 300 } else { 20000 };
+    let nrand = if rep.quick() { 300 } else { 150000 };
     for _ in 0..nrand {
         let mut v = Vec::new();
         for t in &typical {
